@@ -109,7 +109,7 @@ fn cmd_run(id: &str, tier: &str) -> i32 {
             return 2;
         }
     };
-    let hang_secs = env_u64("VERIF_HANG_SECS", 60);
+    let hang_secs = env_u64("VERIF_HANG_SECS", if tier == Tier::Quick { 20 } else { 60 });
     let out = explore(check.as_ref(), seed, tier, n, w, hang_secs);
     println!(
         "# explored episodes={} evaluations={} logical_events={} distinct_nontrivial={} wall={:.1}s",
@@ -248,7 +248,19 @@ fn cmd_replay(path: &str) -> i32 {
             let _ = tx.send((r, log));
         })
         .expect("spawn");
-    match rx.recv_timeout(std::time::Duration::from_secs(hang_secs)) {
+    // poll so that a case that allocates without bound is reported before memory runs out
+    let started = std::time::Instant::now();
+    let got = loop {
+        match rx.recv_timeout(std::time::Duration::from_millis(100)) {
+            Ok(v) => break Ok(v),
+            Err(_) => {
+                if started.elapsed().as_secs() >= hang_secs || engine::rss_over_limit() {
+                    break Err(());
+                }
+            }
+        }
+    };
+    match got {
         Ok((Ok(Some((class, detail))), log)) => {
             for l in log.iter().rev().take(8).rev() {
                 println!("#   op {l}");
